@@ -12,13 +12,14 @@ from cxxheaderparser.simple import parse_string
 TECHNIQUE = "Lean 4: theorems about every outcome of the model's parse() wrapper (message format, totality, stray closing brace, lexer errors); Python-level exception escapes are searched by an oracle on the implementation (runtime behaviour, not provable on the model)"
 LEAN_TARGET = "CxxModel.Props.C06"
 THEOREMS = ["Cxx.C06_wrap_prefix_tok", "Cxx.C06_wrap_prefix_notok", "Cxx.C06_runParse_total", "Cxx.C06_stray_close_rejected",
-            "Cxx.C06_lexer_error_wrapped", "Cxx.rules_supported", "Cxx.lexer_helpers_standard", "Cxx.C06_rules_make_progress", "Cxx.C06_lexer_total", "Cxx.C06_stream_total", "Cxx.nextTok_no_fuel"]
+            "Cxx.C06_lexer_error_wrapped", "Cxx.rules_supported", "Cxx.lexer_helpers_standard", "Cxx.C06_rules_make_progress", "Cxx.C06_lexer_total", "Cxx.C06_stream_total", "Cxx.nextTok_no_fuel", "Cxx.C06_friend_outside_class", "Cxx.C06_access_outside_class", "Cxx.C06_namespace_in_class", "Cxx.C06_concept_in_class", "Cxx.C06_extern_in_class", "Cxx.C06_mismatched_closer", "Cxx.C06_closer_nothing_open"]
 ANCHORS = ["parser.py:", "lexer.py:", "errors.py:", "parserstate.py:", "lex.py:Lexer.token"]
 RULE = ("random text over the token alphabet, byte- and token-level mutations of the test corpus and of generated programs, "
         "truncation of corpus inputs at every token boundary, deep nesting, and rule-breaking inputs built systematically in "
         "every block context (global, namespace, extern block, class); distinct = distinct text; non-trivial = input on which "
         "the parser reads at least 3 tokens")
 CARRIED_BY = {
+    "the explicit structural checks reject, for every parser state of the stated shape: friend / access specifier outside a class, namespace (alias) / concept / extern block inside a class, a closer that does not match the innermost open bracket or with nothing open": "theorems C06_friend_outside_class, C06_access_outside_class, C06_namespace_in_class, C06_concept_in_class, C06_extern_in_class, C06_mismatched_closer, C06_closer_nothing_open (Theorems/Structural.lean)",
     "the lexer and the token stream always make progress: every input is lexed to its end or rejected, the model's bound is never what ends them": "theorems C06_rules_make_progress (kernel-decided on the regenerated rules: no rule matches the empty string, no unmodelled action), C06_lexer_total, C06_stream_total",
     "the error message is `file:line: parse error evaluating '…'` (or `file: parse error`)": "theorems C06_wrap_prefix_tok / C06_wrap_prefix_notok (every outcome of the model's wrapper)",
     "outcome is ok or a wrapped error (non-verbose)": "theorem C06_runParse_total (model: errors are values) + oracle `only_cxxparseerror` on the implementation for Python-level exceptions",
